@@ -7,7 +7,7 @@ VERSIONS = _prog.VERSIONS
 versions_for = _prog.versions_for_any
 op_args = _prog.op_args
 strategy = _prog.dense_strategy
-fixed_cases = _prog.fixed_cases
+fixed_cases = _prog.fixed_cases_dense
 RULE = ("case = program compiled on each of 3.7-3.10 (plus, in ops_build, re-decoded hand-built block graphs); for every code "
         "object T = {0} + every jump destination computed from the raw bytes; the blocks must concatenate to the instruction "
         "sequence, none empty, block starts == T exactly, every Jump.target in range and every block after the first targeted; "
